@@ -12,8 +12,8 @@
 -/
 import Driver.OpsC13
 import FcModel.Truncation
-namespace Fc.Drv
-open Fc.W
+namespace Fc.Drv.C18x
+open Fc.W Fc.Drv Fc.Drv.C13x
 
 def pEnc : P Enc := do
   let t ← tok
@@ -99,6 +99,11 @@ def opC18Run : P String := do
   match runFileMode ignSrc ignRef res ref cmp with
   | .ok n => pure s!"exit={n}"
   | .error _ => pure "exit=raises"
+
+end Fc.Drv.C18x
+
+namespace Fc.Drv
+open Fc.Drv.C18x
 
 def handleC18 (op : String) : Option (P String) :=
   match op with
